@@ -1306,10 +1306,22 @@ class Ex:
         # pointwise equal functions over the same sequence gives the same list.
         c_ = self.contract if (self.contract is not None and len(self.frames) == 1) else self.world.contract_for_func(fr.func)
         named = getattr(c_, "comprehensions", None)
-        if named:
+        if named or (c_ is None and len(self.frames) > 1 and getattr(self.contract, "comprehensions", None)):
             comps_ = [n for n in _walk_shallow(fr.func.node) if isinstance(n, ast.ListComp)]
             comps_.sort(key=lambda n: (n.lineno, n.col_offset))
             k_ = comps_.index(e) if e in comps_ else -1
+            if not named:
+                # an inlined helper without a contract: a comprehension the contract of the function under verification names
+                # may have been moved into it ("extract helper").  The names the function itself no longer has a comprehension
+                # for are given, in order, to the comprehensions met in inlined helpers; the element obligation keeps this honest.
+                top = self.frames[0].func.node
+                own = [n for n in _walk_shallow(top) if isinstance(n, ast.ListComp)]
+                missing = sorted(k for k in self.contract.comprehensions if k >= len(own))
+                seen = self.__dict__.setdefault("_inlined_comps", [])
+                if id(e) not in seen:
+                    seen.append(id(e))
+                j = seen.index(id(e))
+                named = {k_: self.contract.comprehensions[missing[j]]} if j < len(missing) else {}
             if k_ in named:
                 map_name, elt_name = named[k_]
                 lam = ast.Lambda(args=ast.arguments(posonlyargs=[], args=[ast.arg(arg=gen.target.id)], kwonlyargs=[],
